@@ -59,11 +59,23 @@ def rule_a(ctx):
   # the trailing else: assert kind == VAR_KEYWORD; return Kind.VAR_KEYWORD
   rets = sorted([n for n in ast.walk(f.node) if isinstance(n, ast.Return)], key=lambda n: n.lineno)
   asserts = [n for n in ast.walk(f.node) if isinstance(n, ast.Assert)]
+  def return_after(a):
+    # the return that follows the assert in the same statement list
+    for holder in ast.walk(f.node):
+      for fld in ('body', 'orelse', 'finalbody'):
+        lst = getattr(holder, fld, None)
+        if isinstance(lst, list) and a in lst:
+          for st in lst[lst.index(a) + 1:]:
+            if isinstance(st, ast.Return):
+              return st
+    return None
   for a in asserts:
     t = A.unparse(a.test)
     if 'inspect.Parameter.' in t and '==' in t:
       kind = t.split('inspect.Parameter.')[-1].split()[0]
-      mapping[kind] = A.unparse(rets[-1].value).split('.')[-1]
+      r_ = return_after(a)
+      if r_ is not None and r_.value is not None:
+        mapping[kind] = A.unparse(r_.value).split('.')[-1]
   for kind in INSPECT_KINDS:
     ctx.ob('C18.a', f'{f.fq}#covers:{kind}', kind in mapping,
            f'inspect.Parameter.{kind} is mapped to an Argument.Kind', f.loc,
